@@ -79,8 +79,8 @@ def Stable (keep : Num → Bool) (c : Cfg) (e : Engine) : Prop :=
 def HeightExact (c : Cfg) (h : Num) : Prop := h = one ∨ isClose1 c.tol h = false
 
 def bodyNums : TermBody → List Num
-  | .shape ps h => ps ++ h.toList
-  | .discrete xy h => xy ++ [h]
+  | .shape ps _ => ps
+  | .discrete xy _ => xy
   | .linear cs => cs
   | .function _ => []
 
@@ -89,16 +89,23 @@ def activNums : Option Activ → List Num
   | some (.threshold _ _ t) => [t]
   | _ => []
 
-/-- every number of the engine (ranges, defaults, thresholds, term parameters, heights, weights) -/
-def numbers (e : Engine) : List Num :=
-  (e.inputs.flatMap (fun v => v.lo :: v.hi :: v.terms.flatMap (fun t => bodyNums t.body))) ++
-  (e.outputs.flatMap (fun o => o.default :: o.base.lo :: o.base.hi :: o.base.terms.flatMap (fun t => bodyNums t.body))) ++
-  (e.blocks.flatMap (fun b => activNums b.activation ++ b.rules.map (·.weight)))
+/-- a height / weight that survives the cycle unchanged -/
+def HeightRep (c : Cfg) (h : Num) : Prop := OnGrid c.d h ∧ HeightExact c h
 
-def termNames (e : Engine) : List String :=
-  e.inputs.flatMap (fun v => v.terms.map (·.name)) ++ e.outputs.flatMap (fun o => o.base.terms.map (·.name))
+def TermRep (c : Cfg) (t : Term) : Prop :=
+  IsIdent t.name ∧ (∀ x ∈ bodyNums t.body, OnGrid c.d x) ∧ (∀ h ∈ termHeights t, HeightRep c h)
 
+def VarRep (c : Cfg) (v : Var) : Prop :=
+  IsIdent v.name ∧ OnGrid c.d v.lo ∧ OnGrid c.d v.hi ∧ ∀ t ∈ v.terms, TermRep c t
+
+def OutRep (c : Cfg) (o : OutVar) : Prop := VarRep c o.base ∧ OnGrid c.d o.default
+
+def BlockRep (c : Cfg) (b : Block) : Prop :=
+  (∀ x ∈ activNums b.activation, OnGrid c.d x) ∧ ∀ r ∈ b.rules, HeightRep c r.weight
+
+/-- every number (ranges, defaults, thresholds, term parameters, heights, weights) is on the `d`-decimal grid,
+    heights and weights are 1 or outside the tolerance, names are identifiers -/
 def Representable (c : Cfg) (e : Engine) : Prop :=
-  (∀ x ∈ numbers e, OnGrid c.d x) ∧ (∀ h ∈ heightsAndWeights e, HeightExact c h) ∧ (∀ n ∈ termNames e, IsIdent n)
+  (∀ v ∈ e.inputs, VarRep c v) ∧ (∀ o ∈ e.outputs, OutRep c o) ∧ (∀ b ∈ e.blocks, BlockRep c b)
 
 end Spec.Fll
